@@ -71,6 +71,8 @@ type Interp struct {
 	// SchedOrder: preferred order (goroutine ids in creation order, 0 = main) in which
 	// ready goroutines are resumed when the running one blocks
 	SchedOrder []int
+	// SchedReverse: resume ready goroutines in reverse creation order (set by zzSchedule)
+	SchedReverse bool
 	Stats     Stats
 	initDone  map[*ssa.Package]bool
 	InitPkgs  map[string]bool // packages whose init is interpreted
